@@ -305,6 +305,10 @@ def fold_expressions():
         out.append(("not %s" % a, True))
         out.append(("bool(%s)" % a, False))
         out.append(("len(%s) > 7000" % a, False))
+    # comparisons of run-time values with themselves / each other (folded by text, not by value)
+    out += [("v == v", True), ("v != v", True), ("v == w", True), ("v <= v", True), ("v < v", True), ("v is v", True),
+            ("(v, w) == (v, w)", True), ("v + 1 == v + 1", True), ("v == v == w", True), ("not v == v", True),
+            ("[v][0] == [v][0]", True), ("v.real == v.real", True), ("v == 7000", True), ("7000 == v", True)]
     out += [("7000 < 7001 < 7002", True), ("7000 <= 7001 > 7002", True), ("7000 == 7001 != 7002", True),
             ("{1} <= {1, 2} <= {3}", True), ("1 < float('nan') < 3", True), ("abs(7000 - 7001) >= 0", True),
             ("max(7000, 7001) >= min(7000, 7001)", True), ("sum([7000, 7001]) == 7000 + 7001", True),
